@@ -6,11 +6,12 @@ Props/C05, C06, C19.
 
 For every loop there is
 * an inductive description of the successful (resp. failed) prefix of the run
-  (`RepIters`, `AltsFail`, `Chain`),
+  (`RepIters`, `AltsFail`, `ArrayChain`),
 * a `*_cases` lemma (every run is out-of-fuel or is described by the relation),
 * a converse (`*_of_*`), and the resulting `*_ok_iff` / `*_fail_iff`.
 -/
 import PestTyped.Lemmas.CursorRun
+import PestTyped.Lemmas.ResProj
 namespace PestTyped
 
 /-! ### projections (for `decide` examples; `Val` has no decidable equality) -/
@@ -19,9 +20,7 @@ def Res.cur? {σ α} : Res σ α → Option Inp
   | .ok i _ _ => some i
   | _ => none
 
-def Res.okPos? {σ α} : Res σ α → Option Nat
-  | .ok i _ _ => some i.pos
-  | _ => none
+-- `Res.okPos?`, `Res.isOk`, `Res.isFail`: see `Lemmas/ResProj`.
 
 /-- The stack left behind, on success and on failure. -/
 def Res.stk? {α} : R α → Option (List Sp)
@@ -34,14 +33,6 @@ def Res.stkTxt? {α} : R α → Option (List (List Char))
   | .ok _ m _ => some (m.stk.map (·.txt))
   | .fail m => some (m.stk.map (·.txt))
   | .oof => none
-
-def Res.isOk {σ α} : Res σ α → Bool
-  | .ok _ _ _ => true
-  | _ => false
-
-def Res.isFail {σ α} : Res σ α → Bool
-  | .fail _ => true
-  | _ => false
 
 def Res.isOof {σ α} : Res σ α → Bool
   | .oof => true
@@ -456,7 +447,7 @@ theorem choiceLoop_of_ok {α} {f : Node → Inp → M → R α} {i pre m m1} (h 
     simp only [List.length_cons]
     congr 2; omega
 
-theorem choiceLoop_fail_iff {α} (f : Node → Inp → M → R α) (as : List Node) (k0 : Nat) (i : Inp) (m m' : M) :
+theorem choiceLoop_fail_iff_altsFail {α} (f : Node → Inp → M → R α) (as : List Node) (k0 : Nat) (i : Inp) (m m' : M) :
     choiceLoop f as k0 i m = .fail m' ↔ AltsFail f i as m m' := by
   constructor
   · intro h
@@ -466,7 +457,7 @@ theorem choiceLoop_fail_iff {α} (f : Node → Inp → M → R α) (as : List No
     · rw [h1] at h; cases h
   · intro h; exact choiceLoop_of_fail h k0
 
-theorem choiceLoop_ok_iff {α} (f : Node → Inp → M → R α) (as : List Node) (k0 : Nat) (i : Inp) (m : M)
+theorem choiceLoop_ok_iff_altsFail {α} (f : Node → Inp → M → R α) (as : List Node) (k0 : Nat) (i : Inp) (m : M)
     (i' : Inp) (m' : M) (k : Nat) (v : α) :
     choiceLoop f as k0 i m = .ok i' m' (k, v) ↔
       ∃ pre a post m1, as = pre ++ a :: post ∧ k = k0 + pre.length ∧ AltsFail f i pre m m1 ∧
@@ -511,17 +502,17 @@ def Node.restoresOnFail : Node → Bool
 /-! ### `arrayLoop` -/
 
 /-- Consecutive successful runs of `f`, each started where the previous one ended. -/
-inductive Chain {α} (f : Inp → M → R α) : Inp → M → Inp → M → List α → Prop
-  | nil (i : Inp) (m : M) : Chain f i m i m []
+inductive ArrayChain {α} (f : Inp → M → R α) : Inp → M → Inp → M → List α → Prop
+  | nil (i : Inp) (m : M) : ArrayChain f i m i m []
   | cons {i : Inp} {m : M} {i1 : Inp} {m1 : M} {a : α} {i' : Inp} {m' : M} {vs : List α} :
-      f i m = .ok i1 m1 a → Chain f i1 m1 i' m' vs → Chain f i m i' m' (a :: vs)
+      f i m = .ok i1 m1 a → ArrayChain f i1 m1 i' m' vs → ArrayChain f i m i' m' (a :: vs)
 
 theorem arrayLoop_cases {α} (f : Inp → M → R α) :
     ∀ k i m acc,
       arrayLoop f k i m acc = .oof ∨
-      (∃ vs i' m', vs.length = k ∧ Chain f i m i' m' vs ∧
+      (∃ vs i' m', vs.length = k ∧ ArrayChain f i m i' m' vs ∧
         arrayLoop f k i m acc = .ok i' m' (acc.reverse ++ vs)) ∨
-      (∃ vs i1 m1 mf, vs.length < k ∧ Chain f i m i1 m1 vs ∧ f i1 m1 = .fail mf ∧
+      (∃ vs i1 m1 mf, vs.length < k ∧ ArrayChain f i m i1 m1 vs ∧ f i1 m1 = .fail mf ∧
         arrayLoop f k i m acc = .fail mf) := by
   intro k
   induction k with
@@ -542,7 +533,7 @@ theorem arrayLoop_cases {α} (f : Inp → M → R α) :
       · right; right
         exact ⟨a :: vs, i2, m2, mf, by simp only [List.length_cons]; omega, .cons hf hC, hff, h⟩
 
-theorem arrayLoop_of_chain {α} {f : Inp → M → R α} {i m i' m' vs} (h : Chain f i m i' m' vs) :
+theorem arrayLoop_of_chain {α} {f : Inp → M → R α} {i m i' m' vs} (h : ArrayChain f i m i' m' vs) :
     ∀ acc, arrayLoop f vs.length i m acc = .ok i' m' (acc.reverse ++ vs) := by
   induction h with
   | nil i m => intro acc; simp [arrayLoop]
@@ -553,7 +544,7 @@ theorem arrayLoop_of_chain {α} {f : Inp → M → R α} {i m i' m' vs} (h : Cha
     simp only [hf]
     rw [ih]; simp
 
-theorem arrayLoop_of_chain_fail {α} {f : Inp → M → R α} {i m i1 m1 vs} (h : Chain f i m i1 m1 vs)
+theorem arrayLoop_of_chain_fail {α} {f : Inp → M → R α} {i m i1 m1 vs} (h : ArrayChain f i m i1 m1 vs)
     {mf : M} (hf : f i1 m1 = .fail mf) :
     ∀ k acc, vs.length < k → arrayLoop f k i m acc = .fail mf := by
   induction h with
@@ -574,7 +565,7 @@ theorem arrayLoop_of_chain_fail {α} {f : Inp → M → R α} {i m i1 m1 vs} (h 
 theorem arrayLoop_ok_iff {α} (f : Inp → M → R α) (k : Nat) (i : Inp) (m : M) (acc : List α)
     (i' : Inp) (m' : M) (out : List α) :
     arrayLoop f k i m acc = .ok i' m' out ↔
-      ∃ vs, out = acc.reverse ++ vs ∧ vs.length = k ∧ Chain f i m i' m' vs := by
+      ∃ vs, out = acc.reverse ++ vs ∧ vs.length = k ∧ ArrayChain f i m i' m' vs := by
   constructor
   · intro h
     rcases arrayLoop_cases f k i m acc with h0 | ⟨vs, i1, m1, hl, hC, h1⟩ | ⟨vs, i1, m1, mf, _, _, _, h1⟩
@@ -587,7 +578,7 @@ theorem arrayLoop_ok_iff {α} (f : Inp → M → R α) (k : Nat) (i : Inp) (m : 
 
 theorem arrayLoop_fail_iff {α} (f : Inp → M → R α) (k : Nat) (i : Inp) (m : M) (acc : List α) (m' : M) :
     arrayLoop f k i m acc = .fail m' ↔
-      ∃ vs i1 m1, vs.length < k ∧ Chain f i m i1 m1 vs ∧ f i1 m1 = .fail m' := by
+      ∃ vs i1 m1, vs.length < k ∧ ArrayChain f i m i1 m1 vs ∧ f i1 m1 = .fail m' := by
   constructor
   · intro h
     rcases arrayLoop_cases f k i m acc with h0 | ⟨vs, i1, m1, hl, hC, h1⟩ | ⟨vs, i1, m1, mf, hl, hC, hf, h1⟩
